@@ -170,6 +170,26 @@ def run(ctx):
                   "column the screening view leaves out is expanded unscreened and indexes the reference table by an "
                   "unknown name (KeyError)" % (t, sorted(screened)),
                   desc="expansion view `%s` is also the screening view" % t)
+    # the table indexed by the screened names holds every column the screening accepts (no filtered construction)
+    rdv = ReachingDefs(val)
+    n_tab = 0
+    for lp, t in expand:
+        for sub in ast.walk(lp):
+            if isinstance(sub, ast.Subscript) and isinstance(sub.ctx, ast.Load) and isinstance(sub.value, ast.Name):
+                for d in rdv.at(sub, sub.value.id) or []:
+                    if d.kind == "assign" and isinstance(d.value, ast.DictComp):
+                        n_tab += 1
+                        filt = [i for g_ in d.value.generators for i in g_.ifs]
+                        over = d.value.generators[0].iter
+                        whole = isinstance(over, ast.Name) and over.id in val.params()
+                        ctx.check(not filt and whole, "R8.2", val.qualname, d.value, loc(val, d.value),
+                                  "the table `%s` that the expansion indexes by reference name is built from %s: a reference "
+                                  "the screening pass accepts (it names an existing column) can be absent from the table, and "
+                                  "`%s[...]` raises KeyError instead of returning issues" % (
+                                      sub.value.id, "a filtered subset of the columns" if filt else "`%s`, not the sidecar itself" % norm(over)[:40],
+                                      sub.value.id),
+                                  desc="reference table `%s` covers every column of the sidecar" % sub.value.id)
+    ctx.floor("R8.2", "reference tables indexed during expansion", n_tab, 1)
     # screening must actually test membership in the known columns and balance of braces
     src = norm(refs.node)
     for need, what in (("INVALID_COLUMN_REF", "unknown-reference test"), ("_find_non_matching_braces", "brace balance test")):
@@ -216,6 +236,17 @@ def run(ctx):
                   "the '#' count is not taken from a copy on which remove_definitions() and shrink_defs() were applied: a "
                   "valid value column containing `(Def-expand/Name/#, (...#...))` or a Definition is reported as having too "
                   "many placeholders", desc="'#' counted on a copy without definitions / with Def-expand shrunk")
+
+    # per-entry loops of the sidecar validator accumulate: nothing computed for one entry is consumed after the loop
+    ctx.rule("R8.7", "results of the per-entry loops of the sidecar validator are accumulated, not overwritten (last-wins)")
+    from sa.stale import check_no_last_only
+    n_loops = check_no_last_only(
+        ctx, "R8.7", [m for m in sv.methods.values()],
+        {"SidecarValidator._find_non_matching_braces": (1, "the index of the currently open brace is scanner state; the post-loop test reports a "
+                                          "brace still open at the end of the string")},
+        "A fault in any entry of a column but the last one (unknown, nested or self reference, malformed braces) is then "
+        "not recorded for the column-level reference rules.")
+    ctx.floor("R8.7", "loops in the sidecar validator", n_loops, 6)
 
     # ---------------- R8.3
     sc = prog.find_class("Sidecar")
